@@ -540,6 +540,11 @@ def reshape(self, *newdims, **kwargs):
     # First unflatten the array to compare with flattened newdims
     o = self.unflatten()
 
+    # `o` shares its Axis objects with `self`: the temporary renaming below is done on axes of our own
+    attrs = o.attrs
+    o = o._constructor(o.values, [ax.copy() for ax in o.axes])
+    o.attrs.update(attrs)
+
     # Temporarily replace "," by ";" in any dimension with is NOT a flattened axis, and flatten all dimensions apart from that
     newdims_renamed = []
     for d in newdims:
